@@ -209,52 +209,77 @@ func HarnessC14Ticker() {
 
 // ---- histories of probe replies ----
 
-type verifTopo struct {
-	text    string
-	masters map[string][2]int // master addr -> one slot range it serves (probe points)
-	slaves  map[string]string // replica addr -> its master's addr
+type VerifTopo struct {
+	Text    string
+	Masters map[string][2]int // master addr -> the slot range it serves
+	Slaves  map[string]string // replica addr -> its master's addr (only replicas whose master is usable)
+	Unowned [][2]int          // slot ranges nobody serves
+	Others  []string          // usable nodes that belong to no replica set (a replica whose master failed)
 }
 
-var verifTopos = []verifTopo{
+var VerifTopos = []VerifTopo{
 	{ // T0: three masters, one replica each
-		text: "m1 10.0.0.1:7001@17001 master - 0 0 1 connected 0-5460\n" +
+		Text: "m1 10.0.0.1:7001@17001 master - 0 0 1 connected 0-5460\n" +
 			"m2 10.0.0.2:7002@17002 master - 0 0 2 connected 5461-10922\n" +
 			"m3 10.0.0.3:7003@17003 master - 0 0 3 connected 10923-16383\n" +
 			"r1 10.0.0.4:7004@17004 slave m1 0 0 1 connected\n" +
 			"r2 10.0.0.5:7005@17005 slave m2 0 0 2 connected\n" +
 			"r3 10.0.0.6:7006@17006 slave m3 0 0 3 connected\n",
-		masters: map[string][2]int{"10.0.0.1:7001": {0, 5460}, "10.0.0.2:7002": {5461, 10922}, "10.0.0.3:7003": {10923, 16383}},
-		slaves:  map[string]string{"10.0.0.4:7004": "10.0.0.1:7001", "10.0.0.5:7005": "10.0.0.2:7002", "10.0.0.6:7006": "10.0.0.3:7003"},
+		Masters: map[string][2]int{"10.0.0.1:7001": {0, 5460}, "10.0.0.2:7002": {5461, 10922}, "10.0.0.3:7003": {10923, 16383}},
+		Slaves:  map[string]string{"10.0.0.4:7004": "10.0.0.1:7001", "10.0.0.5:7005": "10.0.0.2:7002", "10.0.0.6:7006": "10.0.0.3:7003"},
 	},
 	{ // T1: m1 failed, its replica r1 promoted
-		text: "m1 10.0.0.1:7001@17001 master,fail - 0 0 1 disconnected\n" +
+		Text: "m1 10.0.0.1:7001@17001 master,fail - 0 0 1 disconnected\n" +
 			"m2 10.0.0.2:7002@17002 master - 0 0 2 connected 5461-10922\n" +
 			"m3 10.0.0.3:7003@17003 master - 0 0 3 connected 10923-16383\n" +
 			"r1 10.0.0.4:7004@17004 master - 0 0 4 connected 0-5460\n" +
 			"r2 10.0.0.5:7005@17005 slave m2 0 0 2 connected\n" +
 			"r3 10.0.0.6:7006@17006 slave m3 0 0 3 connected\n",
-		masters: map[string][2]int{"10.0.0.4:7004": {0, 5460}, "10.0.0.2:7002": {5461, 10922}, "10.0.0.3:7003": {10923, 16383}},
-		slaves:  map[string]string{"10.0.0.5:7005": "10.0.0.2:7002", "10.0.0.6:7006": "10.0.0.3:7003"},
+		Masters: map[string][2]int{"10.0.0.4:7004": {0, 5460}, "10.0.0.2:7002": {5461, 10922}, "10.0.0.3:7003": {10923, 16383}},
+		Slaves:  map[string]string{"10.0.0.5:7005": "10.0.0.2:7002", "10.0.0.6:7006": "10.0.0.3:7003"},
 	},
 	{ // T2: m1 is back, as a replica of r1
-		text: "m1 10.0.0.1:7001@17001 slave r1 0 0 4 connected\n" +
+		Text: "m1 10.0.0.1:7001@17001 slave r1 0 0 4 connected\n" +
 			"m2 10.0.0.2:7002@17002 master - 0 0 2 connected 5461-10922\n" +
 			"m3 10.0.0.3:7003@17003 master - 0 0 3 connected 10923-16383\n" +
 			"r1 10.0.0.4:7004@17004 master - 0 0 4 connected 0-5460\n" +
 			"r2 10.0.0.5:7005@17005 slave m2 0 0 2 connected\n" +
 			"r3 10.0.0.6:7006@17006 slave m3 0 0 3 connected\n",
-		masters: map[string][2]int{"10.0.0.4:7004": {0, 5460}, "10.0.0.2:7002": {5461, 10922}, "10.0.0.3:7003": {10923, 16383}},
-		slaves:  map[string]string{"10.0.0.1:7001": "10.0.0.4:7004", "10.0.0.5:7005": "10.0.0.2:7002", "10.0.0.6:7006": "10.0.0.3:7003"},
+		Masters: map[string][2]int{"10.0.0.4:7004": {0, 5460}, "10.0.0.2:7002": {5461, 10922}, "10.0.0.3:7003": {10923, 16383}},
+		Slaves:  map[string]string{"10.0.0.1:7001": "10.0.0.4:7004", "10.0.0.5:7005": "10.0.0.2:7002", "10.0.0.6:7006": "10.0.0.3:7003"},
 	},
 	{ // T3: T0 after moving slots 5000-5460 from m1 to m2
-		text: "m1 10.0.0.1:7001@17001 master - 0 0 1 connected 0-4999\n" +
+		Text: "m1 10.0.0.1:7001@17001 master - 0 0 1 connected 0-4999\n" +
 			"m2 10.0.0.2:7002@17002 master - 0 0 5 connected 5000-10922\n" +
 			"m3 10.0.0.3:7003@17003 master - 0 0 3 connected 10923-16383\n" +
 			"r1 10.0.0.4:7004@17004 slave m1 0 0 1 connected\n" +
 			"r2 10.0.0.5:7005@17005 slave m2 0 0 5 connected\n" +
 			"r3 10.0.0.6:7006@17006 slave m3 0 0 3 connected\n",
-		masters: map[string][2]int{"10.0.0.1:7001": {0, 4999}, "10.0.0.2:7002": {5000, 10922}, "10.0.0.3:7003": {10923, 16383}},
-		slaves:  map[string]string{"10.0.0.4:7004": "10.0.0.1:7001", "10.0.0.5:7005": "10.0.0.2:7002", "10.0.0.6:7006": "10.0.0.3:7003"},
+		Masters: map[string][2]int{"10.0.0.1:7001": {0, 4999}, "10.0.0.2:7002": {5000, 10922}, "10.0.0.3:7003": {10923, 16383}},
+		Slaves:  map[string]string{"10.0.0.4:7004": "10.0.0.1:7001", "10.0.0.5:7005": "10.0.0.2:7002", "10.0.0.6:7006": "10.0.0.3:7003"},
+	},
+	{ // T4: m1 failed and its replica has not been promoted (yet): slots 0-5460 have no owner
+		Text: "m1 10.0.0.1:7001@17001 master,fail - 0 0 1 disconnected 0-5460\n" +
+			"m2 10.0.0.2:7002@17002 master - 0 0 2 connected 5461-10922\n" +
+			"m3 10.0.0.3:7003@17003 master - 0 0 3 connected 10923-16383\n" +
+			"r1 10.0.0.4:7004@17004 slave m1 0 0 1 connected\n" +
+			"r2 10.0.0.5:7005@17005 slave m2 0 0 2 connected\n" +
+			"r3 10.0.0.6:7006@17006 slave m3 0 0 3 connected\n",
+		Masters: map[string][2]int{"10.0.0.2:7002": {5461, 10922}, "10.0.0.3:7003": {10923, 16383}},
+		Slaves:  map[string]string{"10.0.0.5:7005": "10.0.0.2:7002", "10.0.0.6:7006": "10.0.0.3:7003"},
+		Unowned: [][2]int{{0, 5460}},
+		Others:  []string{"10.0.0.4:7004"},
+	},
+	{ // T5: slots 8001-10922 were taken from the live master m2 and belong to nobody
+		Text: "m1 10.0.0.1:7001@17001 master - 0 0 1 connected 0-5460\n" +
+			"m2 10.0.0.2:7002@17002 master - 0 0 6 connected 5461-8000\n" +
+			"m3 10.0.0.3:7003@17003 master - 0 0 3 connected 10923-16383\n" +
+			"r1 10.0.0.4:7004@17004 slave m1 0 0 1 connected\n" +
+			"r2 10.0.0.5:7005@17005 slave m2 0 0 6 connected\n" +
+			"r3 10.0.0.6:7006@17006 slave m3 0 0 3 connected\n",
+		Masters: map[string][2]int{"10.0.0.1:7001": {0, 5460}, "10.0.0.2:7002": {5461, 8000}, "10.0.0.3:7003": {10923, 16383}},
+		Slaves:  map[string]string{"10.0.0.4:7004": "10.0.0.1:7001", "10.0.0.5:7005": "10.0.0.2:7002", "10.0.0.6:7006": "10.0.0.3:7003"},
+		Unowned: [][2]int{{8001, 10922}},
 	},
 }
 
@@ -273,17 +298,17 @@ func HarnessC14Bunched(h, ntopo int) { verifC14History(h, ntopo, true) }
 func verifC14History(h, ntopo int, bunched bool) {
 	w, _ := verifClusterWorld()
 	cn := &EngineGlobal.ClusterNodes
-	check := func(t verifTopo) {
+	check := func(t VerifTopo) {
 		verifrt.Assert(!cn.serverChanged, "change_consumed_by_ticker")
-		for m, rng := range t.masters {
+		for m, rng := range t.Masters {
 			for _, slot := range []int{rng[0], rng[1]} {
 				rs := EngineGlobal.Slots2Node.Get(int32(slot))
 				verifrt.Assert(rs != nil && rs.Master.Addr == m, "slot_served_by_the_master_of_the_latest_reply")
 				for _, sl := range rs.Slaves {
-					verifrt.Assert(t.slaves[sl.Addr] == m, "replica_attached_to_its_master_of_the_latest_reply")
+					verifrt.Assert(t.Slaves[sl.Addr] == m, "replica_attached_to_its_master_of_the_latest_reply")
 				}
 				n := 0
-				for _, mm := range t.slaves {
+				for _, mm := range t.Slaves {
 					if mm == m {
 						n++
 					}
@@ -291,21 +316,26 @@ func verifC14History(h, ntopo int, bunched bool) {
 				verifrt.Assert(len(rs.Slaves) == n, "all_usable_replicas_attached")
 			}
 		}
-		verifrt.Assert(len(EngineGlobal.ProxyPool) == len(t.masters)+len(t.slaves), "pools_follow_latest_node_set")
-		for a := range t.masters {
+		for _, rng := range t.Unowned {
+			for _, slot := range []int{rng[0], rng[1]} {
+				verifrt.Assert(EngineGlobal.Slots2Node.Get(int32(slot)) == nil, "slot_nobody_claims_in_the_latest_reply_is_unowned")
+			}
+		}
+		verifrt.Assert(len(EngineGlobal.ProxyPool) == len(t.Masters)+len(t.Slaves)+len(t.Others), "pools_follow_latest_node_set")
+		for a := range t.Masters {
 			p, ok := EngineGlobal.ProxyPool[a]
 			verifrt.Assert(ok && !p.isSlave, "master_pool_present_and_master")
 		}
-		for a := range t.slaves {
+		for a := range t.Slaves {
 			p, ok := EngineGlobal.ProxyPool[a]
 			verifrt.Assert(ok && p.isSlave, "replica_pool_present_and_replica")
 		}
 	}
-	var last verifTopo
+	var last VerifTopo
 	for step := 0; step < h; step++ {
-		t := verifTopos[verifrt.Choice("topology", ntopo)]
+		t := VerifTopos[verifrt.Choice("topology", ntopo)]
 		last = t
-		if err := cn.updateClusterNodes(t.text); err != nil {
+		if err := cn.updateClusterNodes(t.Text); err != nil {
 			verifrt.Assert(false, "valid_text_accepted")
 		}
 		if bunched && verifrt.Choice("ticker_runs_before_next_reply", 2) == 0 {
@@ -318,7 +348,7 @@ func verifC14History(h, ntopo int, bunched bool) {
 	if bunched {
 		// the cluster is stable now: the next probes repeat the last description
 		for i := 0; i < 2; i++ {
-			if err := cn.updateClusterNodes(last.text); err != nil {
+			if err := cn.updateClusterNodes(last.Text); err != nil {
 				verifrt.Assert(false, "valid_text_accepted")
 			}
 			verifrt.Sleep(1100)
